@@ -62,7 +62,7 @@ def main():
     cases = A.api_schemas(chk, 60 if quick else 600)
     # copy_from matters for composites: keep schemas that nest something
     cases = [c for c in cases if any(ft[0] in ("struct", "union") for _, _, ft in c[2][2])] or cases
-    hist, results = A.grow_histories(chk, cases, rng, 2 if quick else 4, 10 if quick else 30, extra_op=extra_op)
+    hist, results = A.grow_histories(chk, cases, rng, 4 if quick else 6, 14 if quick else 30, extra_op=extra_op)
     entries, bad = A.compare_in_coq(chk, cases, hist, results, "c11")
     P10.report(chk, cases, bad)
     ncopy = 0
